@@ -177,6 +177,37 @@ theorem gen_partitions_match_spec :
     renderSteps 3 produceResponsePartitionV2 = renderSteps 3 (producePartition 3) ∧
     renderSteps 7 produceResponsePartitionV7 = renderSteps 7 (producePartition 7) := by decide
 
+/-! ### the transcribed closures / fetch headers are what the translator regenerates from read.go and conn.go -/
+
+open KV.Gen.ConnLegacy in
+theorem closures_regenerated :
+    stepsEq fetchHeaderV2Gen fetchHeaderV2 = true ∧ stepsEq fetchHeaderV5Gen fetchHeaderV5 = true ∧
+    stepsEq fetchHeaderV10Gen fetchHeaderV10 = true ∧
+    stepsEq readOffsetClosureGen (readOffsetClosure partitionOffsetV1) = true ∧
+    produceClosureGen.all (fun vp => match specOf "produce" with
+                                     | some o => stepsEq vp.2 (o.parse vp.1)
+                                     | none => false) = true ∧
+    produceClosureGen.map (·.1) = versionsOf "writeCompressedMessages" := by decide
+
+/-! `stepsEq` is sound: it only accepts equal programs, so the theorems about the transcriptions are theorems about
+the regenerated programs -/
+mutual
+theorem eqv_sound : ∀ (a b : Step), a.eqv b = true → a = b := by
+  intro a b h
+  cases a <;> cases b <;> simp only [Step.eqv, Bool.and_eq_true, beq_iff_eq, Bool.false_eq_true] at h
+  all_goals first
+    | rfl
+    | (subst h; rfl)
+    | (rename_i x y; rw [stepsEq_sound x y h])
+    | (rename_i v x w y; obtain ⟨h1, h2⟩ := h; subst h1; rw [stepsEq_sound x y h2])
+theorem stepsEq_sound : ∀ (a b : List Step), stepsEq a b = true → a = b := by
+  intro a b h
+  cases a <;> cases b <;> simp only [stepsEq, Bool.and_eq_true, Bool.false_eq_true] at h
+  · rfl
+  · rename_i x xs y ys
+    rw [eqv_sound x y h.1, stepsEq_sound xs ys h.2]
+end
+
 /-! ### D2: what the fix repairs (regression witness; the unfixed shape violates the theorem) -/
 
 def produceUnfixed : OpSpec :=
